@@ -6,12 +6,21 @@ CHECKS = {
  "C01": ("relational runtime monitor at the View boundary: chain vs stand-alone parts vs Script/Probe/Tap-instrumented trees, bit identity at every step",
          "Held on the executions explored: every unary wrapper over every inner view, every combinator over every pair, PFE/EFT in both slots, random triples and random trees with Probe leaves, three scalars. Exploration is the right level: the property is a relation between observable executions of the real code and the space (views x views x N x inputs) is sampled, not enumerable.",
          "harness Dyn/Script/Probe/Tap views; release profile; trials cut at the first non-finite inner output"),
+ "C08": ("readiness automaton per node (Taps on every node of single views and chains) + documented warm-up table + Script children that deliver nothing; dev and release profiles, three scalars",
+         "Held on the executions explored: every view x N grid x degenerate input classes, chains, long runs (1e4 quick / 1e6 thorough updates). 'For ever' is restated as no relapse and no non-finite value within those run lengths; no finite run decides the unbounded claim.",
+         "a node is only judged while its own inputs stayed finite, in domain and below 2^40; a panic of the code under test ends the trial (C15 reports it)"),
  "C14": ("pointwise oracle over Script children (outputs dictated), bit-exact comparison after every update; two-history statelessness relation",
          "Held on the executions explored (all nine combinators x f64/f32/exact rational x seeded script pairs incl. zeros, -0, clip ties, denormals, None prefixes).",
          "children never relapse to None; libm tanh of the harness build is the one the crate reaches"),
+ "C15": ("panic trap (catch_unwind + recording panic hook) around construction and every update()/last(), executed under rustc's run-time instrumentation (dev profile: debug assertions + overflow checks) and in the release profile",
+         "Held on the executions explored: every view x full secondary-parameter grid x N (1..64 in thorough) x 18 input classes x stream lengths shorter than / about / far beyond the window, two-level chains with in-domain inner outputs, f64 and f32.",
+         "constructor panics count as 'constructor rejects N'; inputs bounded by 2^20; one known finding (Alma at f32 with an underflowing first kernel weight)"),
  "C17": ("relational runtime monitor: twin instances, extra last() calls, clones with divergent continuations, twin on another thread; bit identity",
          "Held on the executions explored: all views and random chains, random clone points, three interleavings of original and clone.",
          "Add has no Clone (clone clause vacuous there); release profile"),
+ "C18": ("resource meter: counting global allocator in the harness, live bytes owned by the instance sampled after L, 4L, 16L updates",
+         "Held on the executions explored: every view x N grid, PFE/EFT with each MA, random chains; bytes(4L) <= bytes(L) and bytes(16L) <= bytes(L) as exact integer comparisons (16L up to 4e6 in thorough). Restates 'bound independent of length'; a growth slower than one capacity doubling per 16x length would escape.",
+         "f64, release profile; bytes requested on the driving thread"),
 }
 DESIGN_REF = {k: "DESIGN.md section 3, " + k for k in CHECKS}
 ALL = ["C%02d" % i for i in range(1, 19)]
